@@ -299,7 +299,10 @@ def check_live_dynamic(prog, facts, m):
         if n["kind"] == "Basic" and n["inst"] == "Ecall":
             # the environment reads the call number and the arguments RARS documents for it
             # (independent table, tools/spec_ecalls.py)
-            sig = spec_ecalls.RARS.get(interp.s32(regs[17]))
+            # judged only where the analysis itself knows the call number (otherwise it reports
+            # 'unknown ecall' and documents that it assumes no arguments)
+            known = facts.n[a]["ri"].get("17", "")
+            sig = spec_ecalls.RARS.get(interp.s32(regs[17])) if known == f"c:{interp.s32(regs[17])}" else None
             rd = {17} | (set(sig[0]) if sig else set())
         for r in rd:
             s = last_write.get((fr, r))
